@@ -52,7 +52,14 @@ var (
 	SV    = S{A: 1, B: "b"}
 	ImplV = Impl{N: 4}
 	PP    = &P
+	Fns   = []func() int{F}
+	FnMap = map[string]func() int{"k": F}
+	FnPtr = &Fv
+	AnyFn interface{} = F
+	Hold  = struct{ Fn func() int }{Fn: F}
 )
+
+func Mk() func() int { return F }
 
 const C = 5
 
@@ -154,6 +161,14 @@ func c13Bases() []c13Expr {
 		{name: "call-in-binary", expr: "V + F()", typ: "int", num: true, unsafe: true},
 		{name: "call-in-slice-bound", expr: "Sl[:len(Sl)-1]", typ: "[]int", unsafe: true},
 		{name: "method-call-on-lit", expr: "Impl{N: 2}.M()", typ: "int", num: true, unsafe: true},
+		{name: "indexed-func-call", expr: "Fns[0]()", typ: "int", num: true, unsafe: true},
+		{name: "map-func-call", expr: "FnMap[\"k\"]()", typ: "int", num: true, unsafe: true},
+		{name: "deref-funcptr-call", expr: "(*FnPtr)()", typ: "int", num: true, unsafe: true},
+		{name: "asserted-func-call", expr: "AnyFn.(func() int)()", typ: "int", num: true, unsafe: true},
+		{name: "field-func-call", expr: "Hold.Fn()", typ: "int", num: true, unsafe: true},
+		{name: "call-result-call", expr: "Mk()()", typ: "int", num: true, unsafe: true},
+		{name: "method-expr-call", expr: "Impl.M(ImplV)", typ: "int", num: true, unsafe: true},
+		{name: "method-value-call", expr: "(ImplV.M)()", typ: "int", num: true, unsafe: true},
 	}
 }
 
